@@ -422,6 +422,44 @@ theorem secret_never_at_level_prompt (cfg : Cfg) (prev target : Level) (secret :
       Bool.or_eq_true]
     exact hshown
 
+/-! ## the network driver's SendInteractive -/
+
+/-- `network.Driver.SendInteractive`, for every acquisition procedure: when acquiring the level
+fails, the trace is the acquisition's own trace — not one byte of the dialogue is written; when it
+succeeds, the trace is the acquisition's trace followed by exactly the trace of the generic
+`SendInteractive` run on the state the acquisition left, so every theorem above (pacing, echo
+handling, completion, result) holds of that suffix. -/
+theorem net_dialogue_only_after_level (acquire : St σ → Run σ) (cfg : Cfg)
+    (complete : List (Bytes → Bool)) (dev : Dev σ) (evs : List Event) (s : St σ) :
+    ((acquire s).res = none →
+      netSendInteractive acquire cfg complete dev evs s = acquire s) ∧
+    ((acquire s).res.isSome = true →
+      (netSendInteractive acquire cfg complete dev evs s).trace =
+        (acquire s).trace ++ (sendInteractive cfg complete dev evs (acquire s).st).trace ∧
+      (netSendInteractive acquire cfg complete dev evs s).res =
+        (sendInteractive cfg complete dev evs (acquire s).st).res) := by
+  constructor
+  · intro h
+    simp [netSendInteractive, h]
+  · intro h
+    obtain ⟨x, hx⟩ := Option.isSome_iff_exists.mp h
+    simp [netSendInteractive, hx, Run.trace]
+
+/-- … in particular every write after the acquisition is licensed as in `every_write_licensed`. -/
+theorem net_every_write_licensed (acquire : St σ → Run σ) (cfg : Cfg)
+    (complete : List (Bytes → Bool)) (dev : Dev σ) (evs : List Event) (s : St σ)
+    (hok : (acquire s).res.isSome = true) (pre post : List Ev) (x : Bytes) (r : Bool)
+    (h : (netSendInteractive acquire cfg complete dev evs s).trace =
+      (acquire s).trace ++ pre ++ Ev.write x r :: post) :
+    pre = [] ∨
+    (∃ pre' y ry E, pre = pre' ++ Ev.write y ry :: dels E ∧ x = cfg.ret ∧ r = false ∧
+      (E = [] ∨ EchoSeen cfg y E)) ∨
+    (∃ pre' D e, e ∈ evs ∧ pre = pre' ++ Ev.write cfg.ret false :: dels D ∧
+      RespMatched cfg complete e D.flatten ∧ ¬ Completed complete D.flatten) := by
+  have h2 := ((net_dialogue_only_after_level acquire cfg complete dev evs s).2 hok).1
+  rw [h2, List.append_assoc, List.append_cancel_left_eq] at h
+  exact every_write_licensed cfg complete dev evs (acquire s).st pre post x r h
+
 /-! ## tie to the source: the event list `escalate` builds -/
 
 /-- Obligation on the regenerated facts (go/ast over driver/network/acquirepriv.go): `escalate`
@@ -432,6 +470,15 @@ theorem escalate_source_shape :
     Gen.C12.escalateEvents =
       [("p.Escalate", "p.EscalatePrompt", false), ("d.AuthSecondary", "p.Pattern", true)] ∧
     Gen.C12.escalateComplete = ["d.PrivilegeLevels[p.PreviousPriv].patternRe", "p.patternRe"] := by
+  decide
+
+/-- Obligation on the regenerated facts (go/ast over driver/network/sendinteractive.go): the network
+driver's `SendInteractive` parses its options, acquires the level, returns at once when that
+failed, and only then calls the generic driver's `SendInteractive` — the order
+`netSendInteractive` models. -/
+theorem net_interactive_source_shape :
+    Gen.C12.netInteractiveCalls = ["NewOperation", "d.AcquirePriv", "d.Driver.SendInteractive"] ∧
+    Gen.C12.netInteractiveGuarded = true := by
   decide
 
 /-- the model's `escalateEvents` / `escalateComplete` have that shape: inputs, hidden flags and
